@@ -488,7 +488,7 @@ def conflict_program(t, ak):
 
 
 def main():
-    ck = Check(PID, "proof (type level: unification, instantiation cache) + other (program level: differential against the hand-specialised program)")
+    ck = Check(PID, "proof")
     b = Build()
     ck.cov["trusted_base"] = vlib.TRUSTED_COMMON + [
         "proved: the type-level model Types/Generic.v only; the claim about program behaviour rests on the differential leg (real kddp + LLVM + gcc + runtime on both sides)",
